@@ -8,7 +8,7 @@ a digest byte can never be mistaken for a tag.
 """
 import struct
 
-from xvgen.schema import MODULE, SCHEMA, type_id
+from xvgen.schema import ENUM_MIXIN, MODULE, SCHEMA, type_id
 
 
 def items_of(chunks):
@@ -77,6 +77,13 @@ class Decoder:
                 if self.byte(i) != 0x09:
                     return
                 yield from self.entries(i + 1, t[1], [])
+                return
+            if k == "enum" and t[1] in ENUM_MIXIN:
+                kind, values = ENUM_MIXIN[t[1]]
+                back = {v: name for name, v in values.items()}
+                for v, j in self.value(i, kind):
+                    if v[1] in back:
+                        yield ["e", t[1], back[v[1]]], j
                 return
             if k == "enum":
                 if self.byte(i) != 0x0A:
